@@ -80,6 +80,12 @@ for fl in FLAVS:
                 for mem in (None, 100):
                     add(fid, "core", fl, policy=pol, limit=lim, ttl=ttl, mem=mem)
                     fid += 1
+# --- deeper queues: limit 3 (victim order needs at least two later entries behind a removed one)
+fid = 1500
+for fl in FLAVS:
+    for pol in (None, "lru", "lfu", "arc"):
+        add(fid, "core", fl, policy=pol, limit=3)
+        fid += 1
 # --- Result functions
 fid = 2000
 for fl in FLAVS:
@@ -105,6 +111,10 @@ for fl in FLAVS:
             for mem in (None, 100):
                 add(fid, "inval_on", fl, policy=pol, limit=lim, mem=mem, inval_on=True, versioned=True)
                 fid += 1
+for fl in FLAVS:
+    for pol in (None, "lru"):
+        add(fid, "inval_on", fl, policy=pol, limit=None, ttl=2, inval_on=True, versioned=True)
+        fid += 1
 # --- metadata corpus: every assignment of tags/events/dependencies ⊆ {x, y}
 fid = 5000
 SUBS = [(), ("x",), ("y",), ("x", "y")]
